@@ -213,3 +213,12 @@ func TestVerifC14Config(t *testing.T) {
 			"with disableMP a session carries only the family of its peer address"}},
 		genC14, runC14)
 }
+
+// C05 through this backend: what each neighbor of the generated FRR configuration is offered must be exactly what
+// was requested on its session.
+func TestVerifC05FRR(t *testing.T) {
+	vw.Run(t, vw.Options{Property: "C05", Engine: "frr-backend",
+		Rule:        "the session sets and advertisement histories of the C14 engine through the real FRR session manager and templates; the interpreter's per-neighbor offered routes (prefix, local preference, communities) must equal the request of that session; non-trivial as in C14",
+		Assumptions: []string{"FRR semantics as written in the header of zz_verif_interp.go", "the speaker hands each session the advertisements of its peer (judged by the C05 speaker engine)"}},
+		genC14, runC14)
+}
